@@ -227,7 +227,7 @@ def run(spec, ctx):
     viols, st = check_brackets(m, res)
     if 'stdout_write_fail' not in res.fired:
         check_model(m, res)      # (a test cut short by the injected OSError runs fewer phases)
-    fired = C.fired_kinds(res.trace)
+    fired = C.merge_counts(C.fired_kinds(res.trace), {k: 1 for k in res.fired})
     xprobes = {}
     if spec.get('xpy'):
         for ver, py in xpy.interpreters():
